@@ -3,6 +3,8 @@ Driver/C02 — runs the parser front ends of Model/ParseGuards on the harness' r
 
   seed <id> <hex>                                  remember a seed                         → ok
   cfg name=value …                                 struct sizes printed by the harness      → ok
+  keys <n> <n> …                                   key names (decimal) of the key store the
+                                                   harness hands to the BLTE decoders       → ok
   run <parser> <seed> <edits|-> c=<c> k=<k> cap=<cap> obs=<class>
       edits: comma list of  t<n> (truncate) | p<off>:<hex> (overwrite) | a<hex> (append)
       → `<class> big=<0|1>`: class = panic / err where the front end decides, `abort` when a
@@ -11,6 +13,9 @@ Driver/C02 — runs the parser front ends of Model/ParseGuards on the harness' r
         COMPLETE model (root: C03's RootFile.parse; espec: ParseFronts.ESpec grammar; bpsv /
         buildinfo: C15's Bpsv.parse, both on all-ASCII inputs; lru: C07's Lru.deserialize;
         updsec / residency: always ok; localhdr: ok iff ≥ 30 bytes), where ok|err is PREDICTED;
+        blte: `Blte.frontKeys` with the key store of the `keys` line (encrypted chunks: the header
+        of decrypt_chunk_with_keys decides err before the cipher runs); encchunk: one encrypted
+        chunk payload through `Blte.encFront`;
         big = a front-end allocation exceeds c·len+k or a capped one exceeds MAX_DECOMPRESSION_SIZE.
   lhdr <hex>   LocalHeader::from_bytes + blte_size                       → none | blte=<n>
 -/
@@ -27,6 +32,7 @@ open Cascette.Model.ParseGuards
 structure St where
   seeds : List (String × Bytes) := []
   sizes : List (String × Nat) := []
+  keys : List Nat := []
 
 def St.size (s : St) (n : String) : Nat := (s.sizes.lookup n).getD 0
 
@@ -74,7 +80,8 @@ def shmemFront (b : Bytes) : Front :=
 /-- front end of a parser, `none` when the parser has no front-end model (oracle-only). -/
 def frontOf (s : St) (parser : String) (d : Bytes) : Option Front :=
   match parser with
-  | "blte" => some (Blte.front d)
+  | "blte" => some (Blte.frontKeys (fun n => s.keys.contains n) d)
+  | "encchunk" => some { verdict := Blte.encFront (fun n => s.keys.contains n) d }
   | "encoding" => some (Enc.front (s.size "enc_idx") (s.size "enc_pagec") (s.size "enc_pagee") d)
   | "install" => some (Manifest.installFront (s.size "in_tag") (s.size "in_entry") d)
   | "download" => some (Manifest.downloadFront (s.size "dl_entry") (s.size "dl_tag") d)
@@ -121,6 +128,9 @@ def step (s : St) (t : List String) : St × String :=
   | "cfg" :: rest =>
     let kvs := rest.filterMap (fun x => (kv x).bind (fun (a, b) => b.toNat?.map (fun n => (a, n))))
     if kvs.length = rest.length then ({ s with sizes := kvs ++ s.sizes }, "ok") else (s, "bad-op")
+  | "keys" :: rest =>
+    let ns := rest.filterMap String.toNat?
+    if ns.length = rest.length then ({ s with keys := ns }, "ok") else (s, "bad-op")
   | ["run", parser, sid, es, c, k, cap, obs] =>
     match s.seeds.lookup sid, kvNat c "c", kvNat k "k", kvNat cap "cap", kv obs with
     | some seed, some c, some k, some cap, some ("obs", o) =>
